@@ -78,4 +78,19 @@ def Reaches (P : Prog) (d : Int) (x : Reg) (u : Int) : Prop :=
     ((DefinesAt P v d x ∧ d < u ∧ ∀ l, d < l → l < u → ¬ DefinesAt P v l x) ∨
      ((∀ l, l < u → ¬ DefinesAt P v l x) ∧ ReachesEntry P d x v))
 
+/-! ### paths that start at the entry
+
+`ReachesEntry` lets a walk start at the node that holds the definition, whether or not that node can be
+reached from the entry node: a definition in dead code "reaches" the nodes below it (this is what the
+code computes).  The sharper notion: the walk is the tail of a path that starts at the entry. -/
+
+/-- node `v` can be reached from the entry node -/
+def Reachable (P : Prog) (v : Nat) : Prop := v = P.entry ∨ ∃ mids, Walk P P.entry mids v
+
+/-- there is a path dummy entry → entry → … → `v` on which `d` is the last definition of `x` before
+    the start of `v` (the prefix up to the node holding `d` is arbitrary) -/
+def ReachesFromEntry (P : Prog) (d : Int) (x : Reg) (v : Nat) : Prop :=
+  ∃ mids, (∀ w ∈ mids, Clear P w x) ∧
+    ((∃ m, Reachable P m ∧ LastDefIn P m x d ∧ Walk P m mids v) ∨ (ParamDef P d x ∧ WalkFromDummy P mids v))
+
 end AgVerif.Spec.ReachDef
